@@ -517,6 +517,20 @@ Section Ledger.
     | RRejected => (Rejected, s)
     end.
 
+  (** executeTx on a transaction handed over by the mempool (block producer path): the pool verified the
+      signature against the account the sender resolved to AT ADMISSION and attached it (VerifiedAccount);
+      executeTx refuses the tx (ErrSignNotMatch) when the sender resolves to another account now. *)
+  Definition exec_tx_pooled (va : option N) (bno : N) (s : lstate) (t : tx) : outcome * lstate :=
+    match va with
+    | Some a => if (a =? resolve s (t_from t))%N then exec_tx bno s t else (Rejected, s)
+    | None => exec_tx bno s t
+    end.
+
+  (** blockExecutor.execute on the commit-only path (block delivered WITH a block state: block factory, raft):
+      no re-execution; validatePost compares the header's state root with the supplied state's root *)
+  Definition commit_only (root_of : lstate -> N) (hdr_root : N) (supplied s : lstate) : lstate :=
+    if (root_of supplied =? hdr_root)%N then supplied else s.
+
   (** sendRewardCoinbase *)
   Definition send_reward_coinbase (s : lstate) (coinbase : option N) : lstate :=
     match coinbase with
